@@ -229,7 +229,7 @@ inline Rational ratFromString(const char* desc)
 
             // remove padding 0s
             if(s[0] == '-')
-               s.erase(1, SOPLEX_MIN(s.substr(1).find_first_not_of('0'), s.size() - 1));
+               s.erase(1, SOPLEX_MIN(s.substr(1).find_first_not_of('0'), s.size() - 2));   // keep the sign and one digit
             else
                s.erase(0, SOPLEX_MIN(s.find_first_not_of('0'), s.size() - 1));
 
